@@ -134,6 +134,18 @@ FRESH_ALL = len(PROBES)      # every fresh-object expression looked at in one ev
 PROBES.append(("[" + ", ".join("(%s)" % f if f.startswith("[") else f for f in FRESH) + "].map(function(t9){ return String(t9.zq9) + '|' + String(t9[0]) + '|' + String(t9.length); }).join(';')", None))
 
 
+# cheap operations repeated a few hundred times inside one evaluation: whatever an operation leaves
+# behind per call (a counter, a cache entry, a list element) must not change what later ones do
+CHURN = (
+    "eval(7);", "eval();", "eval(null);", "eval('1');", "(0, eval)('2');", "new Function('return 1')();",
+    "try { eval('('); } catch (c1) {}", "try { eval('throw 1'); } catch (c1) {}", "try { null.x; } catch (c1) {}",
+    "try { undefinedFn9(); } catch (c1) {}", "try { new Function('(')(); } catch (c1) {}", "JSON.parse('[1]');",
+    "try { JSON.parse('['); } catch (c1) {}", "'ab'.match('a');", "try { new RegExp('('); } catch (c1) {}", "/a/.test('a');",
+    "[1].forEach(function(){});", "({}).toString();", "try { (function(){ throw 1; })(); } catch (c1) {}",
+    "Object.keys({a: 1});", "try { [1].forEach(function(){ throw 1; }); } catch (c1) {}",
+)
+
+
 # ------------------------------------------------------------------ generation
 def gen_effect(rng, vals):
     v = vals[0]
@@ -158,8 +170,10 @@ def gen_effect(rng, vals):
         return {"e": "rxdef", "v": v}
     if r < 0.95:
         return {"e": "taint", "fresh": rng.randrange(len(FRESH)), "v": v}
-    if r < 0.98:
+    if r < 0.975:
         return {"e": "mutate", "name": name, "v": v}
+    if r < 0.992:
+        return {"e": "churn", "snip": rng.randrange(len(CHURN)), "n": rng.choice((130, 300)), "v": v}
     return {"e": "local", "name": rng.choice(LOCALS), "v": v}
 
 
@@ -183,6 +197,8 @@ def effect_src(e):
         n = e["name"]
         return ("if (typeof %s == 'object' && %s !== null) { if (typeof %s.push == 'function') { %s.push(%d); } else { %s.zq = %d; "
                 "if (%s.k && typeof %s.k.push == 'function') { %s.k.push(%d); } } }" % (n, n, n, n, e["v"], n, e["v"], n, n, n, e["v"]))
+    if k == "churn":
+        return "for (var cq = 0; cq < %d; cq++) { %s }" % (e["n"], CHURN[e["snip"] % len(CHURN)])
     if k == "taint":
         # write on a freshly made object in every way a script can (no effect on any later evaluation)
         return ("(function(){ var t9 = %s; try { t9.zq9 = %d; } catch (e1) {} try { if (typeof t9.push == 'function') { t9.push(%d); } else { t9[0] = %d; } } catch (e2) {} })();"
@@ -314,6 +330,9 @@ def gen_op(rng, ctxs, vals, allow_reenter):
     if r < 0.63:
         return {"op": "json_recover", "ctx": c, "how": rng.choice(("cycle", "cycle_caught", "deep"))}
     effects = [gen_effect(rng, vals) for _ in range(rng.randrange(1, 5))]
+    if cfg["T_work"]:
+        # a few hundred nested evaluations do not fit every time limit: churn only where none is set
+        effects = [e if e["e"] != "churn" else {"e": "implicit", "name": NAMES[e["v"] % len(NAMES)], "v": e["v"]} for e in effects]
     pool = list(OTHER_TERMINALS)
     if cfg["T_work"]:
         pool += list(LOOP_TERMINALS) * 2
@@ -601,6 +620,23 @@ class Sim:
         if kind_out not in allowed:
             if kind_out == "cap":
                 self.bad("C12.recover", "eval with terminal %s on context %d did not return" % (term, c), step)
+            elif kind_out == "limit_mem" and not nested and op.get("nested") is None:
+                # none of these scripts nests calls: how much of the memory limit they need does not
+                # depend on the context's globals, so a pristine context with the same limit decides
+                # whether the limit or something this context has been through stopped the script
+                pr = self.Context(memory_limit=cfg["M"])
+                for nm in ("ack", "re"):
+                    pr.set(nm, lambda *a: None)
+                pr.set("boom", lambda *a: (_ for _ in ()).throw(ValueError("injected")))
+                po = run_eval(pr, src, 3_000_000)
+                if po["kind"] != "limit_mem":
+                    self.bad("C12.recover", "eval with terminal %s on context %d was stopped by MemoryLimitError (memory_limit=%r); the same script on a pristine context with the same limit ends in %s" % (
+                        term, c, cfg["M"], po["kind"]), step)
+                else:
+                    # flat statements and loops of flat statements: a few operands and frames at any
+                    # moment, far below the smallest limit generated (30000)
+                    self.bad("C12.recover", "eval with terminal %s on context %d was stopped by MemoryLimitError (memory_limit=%r) although it nests no calls; so is the same script on a pristine context" % (
+                        term, c, cfg["M"]), step)
             else:
                 self.bad("precondition", "terminal %s ended in %s %s %s" % (term, kind_out, out.get("cls"), out.get("msg")), step)
         if term in ("syntax", "compile_error_nested", "compile_error_label"):
